@@ -53,7 +53,8 @@ M = [
  ("c20_match_reverse", "C20", "fp.go", "\tfor _, pattern := range patternMatchingSelf.patterns {\n\t\tvalue := inValue", "\tfor i := len(patternMatchingSelf.patterns) - 1; i >= 0; i-- {\n\t\tpattern := patternMatchingSelf.patterns[i]\n\t\tvalue := inValue"),
  ("c20_call_append_outside_lock", "C20", "fp.go", "\tcurrySelf.callM.Lock()\n\tverifAt(\"curry.Call.locked\")\n\tif !currySelf.isDone.Get() {\n\t\tcurrySelf.args = append(currySelf.args, args...)", "\tif !currySelf.isDone.Get() {\n\t\tcurrySelf.args = append(currySelf.args, args...)\n\t}\n\tcurrySelf.callM.Lock()\n\tverifAt(\"curry.Call.locked\")\n\tif !currySelf.isDone.Get() {"),
  ("c20_markdone_ignored", "C20", "fp.go", "\tif !currySelf.isDone.Get() {\n\t\tcurrySelf.args = append(currySelf.args, args...)\n\t\tcurrySelf.result", "\tif !currySelf.isDone.Get() || len(args) == 2 {\n\t\tcurrySelf.args = append(currySelf.args, args...)\n\t\tcurrySelf.result"),
- ("c20_regex_on_nonstring", "C20", "fp.go", "\tif Maybe.Just(value).IsNil() || reflect.TypeOf(value).Kind() != reflect.String {\n\t\treturn false\n\t}\n\n\tmatches, err := regexp.MatchString(patternSelf.pattern, (value).(string))", "\tif Maybe.Just(value).IsNil() {\n\t\treturn false\n\t}\n\n\tmatches, err := regexp.MatchString(patternSelf.pattern, fmt.Sprint(value))"),
+ ("c20_regex_on_nonstring", "C20", "fp.go", "\tif Maybe.Just(value).IsNil() || reflect.TypeOf(value).Kind() != reflect.String {\n\t\treturn false\n\t}\n", "\tif Maybe.Just(value).IsNil() {\n\t\treturn false\n\t}\n\tif reflect.TypeOf(value).Kind() != reflect.String {\n\t\tmatches, err := regexp.MatchString(patternSelf.pattern, fmt.Sprint(value))\n\t\treturn err == nil && matches\n\t}\n"),
+ ("c20_regex_named_string_panics", "C20", "fp.go", "\tmatches, err := regexp.MatchString(patternSelf.pattern, reflect.ValueOf(value).String())", "\tmatches, err := regexp.MatchString(patternSelf.pattern, (value).(string))"),
  ("c08_offer_rlock", "C08", "queue.go", "func (q *ConcurrentQueue[T]) Offer(val T) error {\n\tq.lock.Lock()\n\tdefer q.lock.Unlock()", "func (q *ConcurrentQueue[T]) Offer(val T) error {\n\tq.lock.RLock()\n\tdefer q.lock.RUnlock()"),
  ("c08_pop_nolock", "C08", "queue.go", "func (q *ConcurrentStack[T]) Pop() (T, error) {\n\tq.lock.Lock()\n\tdefer q.lock.Unlock()\n", "func (q *ConcurrentStack[T]) Pop() (T, error) {\n"),
  ("c08_take_unlock_early", "C08", "queue.go", "func (q *ConcurrentQueue[T]) Take() (T, error) {\n\tq.lock.Lock()\n\tdefer q.lock.Unlock()\n", "func (q *ConcurrentQueue[T]) Take() (T, error) {\n\tq.lock.Lock()\n\tq.lock.Unlock()\n"),
